@@ -508,6 +508,9 @@ func verifC02Check(opt Option, code uint16, want []byte, wordsAt ...int) {
 		return
 	}
 	verifEqOpt(opt, back)
+	// C20 on typed values with symbolic fields: reading or printing the option (the one built and
+	// the one decoded) changes neither its encoding nor what its accessors return
+	verifC20Readers(back, false)
 	verifReach("end")
 }
 
